@@ -990,6 +990,13 @@ class GroupBy:
         result_len = len(self.result_index)
 
         if transform:
+            if func_is_mean:
+                # the per-group mean has to be formed before it is broadcast
+                with np.errstate(invalid="ignore", divide="ignore"):
+                    result_columns = [
+                        mean_from_sum_count(pd.Series(sum_), pd.Series(count)).to_numpy()
+                        for sum_, count in zip(result_columns, counts)
+                    ]
             self._unify_group_key_chunks()
             result_columns = [result[self.group_ikey] for result in result_columns]
             if common_index is not None:
